@@ -18,6 +18,9 @@ from ..format import Format
 
 odmlns = Format.namespace()
 
+# Attributes the RDFWriter exports as typed (date, numeric) literals.
+TYPED_ATTRIBUTES = ["date", "uncertainty"]
+
 
 def sparql_str(value):
     """
@@ -45,6 +48,11 @@ def attribute_pattern(var, fmt, attr, value):
         return "FILTER (str(?{0}) = \"{1}{2}\") .\n".format(var, odmlns, value)
 
     pred = re.sub(str(odmlns), "odml:", fmt.rdf_map(attr))
+    if attr in TYPED_ATTRIBUTES:
+        # Typed literals never equal a plain string literal; compare the lexical form.
+        patt = "?{0} {1} ?{0}_{2} .\nFILTER (str(?{0}_{2}) = \"{3}\") .\n"
+        return patt.format(var, pred, attr, value)
+
     return "?{0} {1} \"{2}\" .\n".format(var, pred, value)
 
 
